@@ -10,6 +10,11 @@ NOTE = ("Trusted: Lean 4.33 kernel; axioms propext/Classical.choice/Quot.sound o
         "-O2 build (thorough: also -O0 and -march=native, all alignments). Constants and README tables are regenerated from "
         "/repo on every run (tools/gen.py). Clauses not yet carried by a theorem are listed in the evidence under not_yet_proved.")
 CLAIMED = {
+ "C06": ("Theorems: the first byte names the encoding; the selector (for every outcome of its float comparisons) picks "
+         "BITMAP only for sorted, all-unique, < 65536, < 10000-element input; the DELTA, FOR and TAGGED arms are lossless "
+         "for arrays of every length (adaptive_roundtrip_partial). All six arms, the analysis and the selector are "
+         "modelled and compared with the code; the harness decodes every stream with the original count",
+         "Lean 4 proof (partial: 3 of 6 arms) + differential correspondence over every decision-tree leaf"),
  "C07": ("Per-value theorems over all 2^64 IEEE patterns: FULL precision reproduces every double bit for bit; special values "
          "are exact in every precision; reduced precision moves the significand by at most half a unit (carry renormalised), "
          "i.e. relative error <= 2^-mantissaBits, sign kept, infinity only from the largest exponent; automatic selection "
